@@ -33,14 +33,15 @@ def critical(c, r):
 
 
 def corrupt_trace(tr):
-    # flip the result of the first successful COMMIT whose transaction wrote something: claim it failed
-    for i, e in enumerate(tr):
-        if e.get("ev") == "ret" and e.get("res") == "ok" and e.get("out", {}).get("aff") == 1:
-            e["out"]["aff"] = 0
-            return tr
+    """Always rejectable: the first acknowledged write reports 5 affected rows (a single-row statement affects 0 or 1), and
+    the final working root of main holds a value 9 that nobody ever wrote: no linearization explains either."""
+    for e in tr:
+        if e.get("ev") == "ret" and e.get("res") == "ok" and isinstance(e.get("out"), dict) and "aff" in e["out"]:
+            e["out"]["aff"] = 5
+            break
     for e in tr:
         if e.get("ev") == "final":
-            e["store"]["main"]["n"] += 1
+            e["store"]["main"]["w"] = [[1, 9, 9]]
     return tr
 
 
@@ -63,7 +64,7 @@ def run(ctx):
     first = True
     for fam, cfg, num, depth in FAMILIES[ctx.tier]:
         beh = bg.drop_prefixes(ctx.tlc_behaviours("Txn.tla", cfg, num=num, depth=depth, seed=ctx.seed + {"core": 0, "dolt": 500, "full": 900}[fam]))
-        h = bg.require_actions(beh, ["Update", "Insert", "Delete", "Commit", "Read"] + (["DoltCommit", "DoltAdd", "SetTc"] if fam != "core" else []), fam)
+        h = bg.require_actions(beh, ["Update", "Insert", "Delete", "Commit", "Read"] + (["DoltCommit", "DoltAdd", "SetTc"] if fam != "core" else []), fam, ctx)
         ctx.cov.setdefault("action_histogram", {})[fam] = h
         cs = bg.txn_cases(ctx, beh, fam)
         if first:
